@@ -134,16 +134,6 @@ def normDomain (N : Norm) (d : Bytes) : Except Err Bytes :=
 
 def hasForbidden (l : Bytes) : Bool := l.any (· ∈ forbidden)
 
-/-- `localChecks` -/
-def localChecks (l : Bytes) : Except Err Unit :=
-  if l.length > maxPart then .error .longLocal
-  else if hasForbidden l then .error .forbiddenLocal
-  else .ok ()
-
-/-- `resourceChecks` -/
-def resourceChecks (r : Bytes) : Except Err Unit :=
-  if r.length > maxPart then .error .longResource else .ok ()
-
 /-- a part that is normalised only when it is not empty -/
 def normOpt (f : Bytes → Option Bytes) (x : Bytes) : Except Err Bytes :=
   if x = [] then .ok []
@@ -151,20 +141,30 @@ def normOpt (f : Bytes → Option Bytes) (x : Bytes) : Except Err Bytes :=
     | some y => .ok y
     | none => .error .norm
 
-/-- `New(localpart, domainpart, resourcepart)` -/
-def new (N : Norm) (l d r : Bytes) : Except Err Jid := do
-  if validUtf8 l = false ∨ validUtf8 r = false then throw .utf8
-  let d' ← normDomain N d
-  let l' ← normOpt N.nL l
-  let r' ← normOpt N.nR r
-  localChecks l'
-  resourceChecks r'
-  pure (mk l' d' r')
+/-- `New(localpart, domainpart, resourcepart)`: UTF-8 check of local- and resourcepart,
+`normalizeDomainpart`, the two PRECIS profiles, `localChecks`, `resourceChecks`, in the order
+of the Go function -/
+def new (N : Norm) (l d r : Bytes) : Except Err Jid :=
+  if validUtf8 l = false ∨ validUtf8 r = false then .error .utf8
+  else match normDomain N d with
+    | .error e => .error e
+    | .ok d' =>
+      match normOpt N.nL l with
+      | .error e => .error e
+      | .ok l' =>
+        match normOpt N.nR r with
+        | .error e => .error e
+        | .ok r' =>
+          if l'.length > maxPart then .error .longLocal
+          else if hasForbidden l' then .error .forbiddenLocal
+          else if r'.length > maxPart then .error .longResource
+          else .ok (mk l' d' r')
 
 /-- `Parse(s)` -/
-def parse (N : Norm) (s : Bytes) : Except Err Jid := do
-  let (l, d, r) ← split true s
-  new N l d r
+def parse (N : Norm) (s : Bytes) : Except Err Jid :=
+  match split true s with
+  | .error e => .error e
+  | .ok (l, d, r) => new N l d r
 
 /-- `ParseUnsafe(s)`: the value is built even when the split reports an error (the parts are
 then empty) -/
@@ -174,23 +174,29 @@ def parseUnsafe (s : Bytes) : Jid × Bool :=
   | .error _ => (mk [] [] [], false)
 
 /-- `j.WithLocal(l)` -/
-def withLocal (N : Norm) (j : Jid) (l : Bytes) : Except Err Jid := do
-  if l ≠ [] ∧ validUtf8 l = false then throw .utf8
-  let l' ← normOpt N.nL l
-  localChecks l'
-  pure ⟨l' ++ j.data.drop j.ll, l'.length, j.dl⟩
+def withLocal (N : Norm) (j : Jid) (l : Bytes) : Except Err Jid :=
+  if l ≠ [] ∧ validUtf8 l = false then .error .utf8
+  else match normOpt N.nL l with
+    | .error e => .error e
+    | .ok l' =>
+      if l'.length > maxPart then .error .longLocal
+      else if hasForbidden l' then .error .forbiddenLocal
+      else .ok ⟨l' ++ j.data.drop j.ll, l'.length, j.dl⟩
 
 /-- `j.WithDomain(d)` -/
-def withDomain (N : Norm) (j : Jid) (d : Bytes) : Except Err Jid := do
-  let d' ← normDomain N d
-  pure ⟨j.data.take j.ll ++ d' ++ j.data.drop (j.ll + j.dl), j.ll, d'.length⟩
+def withDomain (N : Norm) (j : Jid) (d : Bytes) : Except Err Jid :=
+  match normDomain N d with
+  | .error e => .error e
+  | .ok d' => .ok ⟨j.data.take j.ll ++ d' ++ j.data.drop (j.ll + j.dl), j.ll, d'.length⟩
 
 /-- `j.WithResource(r)` -/
-def withResource (N : Norm) (j : Jid) (r : Bytes) : Except Err Jid := do
-  if r ≠ [] ∧ validUtf8 r = false then throw .utf8
-  let r' ← normOpt N.nR r
-  resourceChecks r'
-  pure ⟨j.data.take (j.ll + j.dl) ++ r', j.ll, j.dl⟩
+def withResource (N : Norm) (j : Jid) (r : Bytes) : Except Err Jid :=
+  if r ≠ [] ∧ validUtf8 r = false then .error .utf8
+  else match normOpt N.nR r with
+    | .error e => .error e
+    | .ok r' =>
+      if r'.length > maxPart then .error .longResource
+      else .ok ⟨j.data.take (j.ll + j.dl) ++ r', j.ll, j.dl⟩
 
 /-! ## XML encodings (token level: the attribute value / the character data) -/
 
